@@ -103,6 +103,8 @@ def grid_specs():
         "same_pn_both_directions": {"steps": [data(0, 40), data(1, 300), data(0, 41), data(1, 301)]},
         "cid_lengths": {"dcid_len": 20, "c_scid_len": 4, "s_scid_len": 17},
         "suite_not_first": {"offered": "x"},
+        "retry_long_token_0rtt": {"retry": True, "token_len": 80, "early": 2},
+        "new_token_long_0rtt": {"token_len": 64, "early": 1},
     }
     i = 0
     for suite in (0x1301, 0x1302, 0x1303, 0x1304):
